@@ -167,4 +167,94 @@ Definition mstep (Ms : list (mat T)) (ko : nat * sop) : res (list (mat T) * sout
 Definition mrun (ops : list (nat * sop)) (Ms : list (mat T)) : res (list (mat T) * list sout) :=
   fold_left (fun acc o => let* st := acc in let* st' := mstep (fst st) o in Ok (fst st', snd st ++ [snd st']))
             ops (Ok (Ms, [])).
+
+(** ** References into an object that the caller keeps across calls.
+    The non-const operator[] returns  std::vector<double>&  (= components[i]); the caller may keep it
+    (auto& r = M[i];), keep a reference to one entry (double& e = M[i][j];), and write through either at any
+    later time - between two queries, without any further member call:
+      r[j] = v;   std::swap(r1, r2);   r = {..};   e = v;
+    A row reference denotes the row POSITION i (std::swap of two rows exchanges their contents), an entry
+    reference the position (i, j).  The state of a program is the entries plus the table of the references the
+    caller holds; a write through a reference is the indexed write at the position it denotes ([hresolve]).
+    Which references survive a member call follows the container rules ([hkeep]): value-only calls keep all;
+    std::swap(M[i], M[j]) and Delete_Column keep the row references (entry references are given up);
+    Resize / Assign to at most the current number of rows keep the row references to the remaining rows
+    (std::vector::resize does not reallocate when shrinking), to more rows none; Delete_Row(k) keeps the rows
+    before k; operator= none.  Using a reference that is not in the table is [OOB] (a harness error, never generated). *)
+Inductive href : Type := HRow (i : nat) | HElt (i j : nat).
+Inductive hop : Type :=
+| HCall (o : sop)                       (* a member call or an access by indices, as in [sop] *)
+| HHoldRow (h i : nat)                  (* std::vector<double>& r_h = M[i];  exits when i >= rows *)
+| HHoldElt (h i j : nat)                (* double& e_h = M[i][j]; *)
+| HRowSet (h j : nat) (v : T)           (* r_h[j] = v; *)
+| HRowSwap (h1 h2 : nat)                (* std::swap(r_h1, r_h2); *)
+| HRowAssign (h : nat) (l : list T)     (* r_h = l;  (as many entries as the matrix has columns) *)
+| HEltSet (h : nat) (v : T).            (* e_h = v; *)
+Definition htab := list (nat * href).
+Fixpoint hfind (h : nat) (tb : htab) : option href :=
+  match tb with
+  | [] => None
+  | (h', r) :: tl => if h' =? h then Some r else hfind h tl
+  end.
+Definition is_hrow (r : href) : bool := match r with HRow _ => true | HElt _ _ => false end.
+Definition hkeep (M : mat T) (o : sop) (r : href) : bool :=
+  match o with
+  | USwap _ _ | UDelCol _ => is_hrow r
+  | UResize r' _ | UAssign r' _ _ => match r with HRow i => (r' <=? mrows M) && (i <? r') | HElt _ _ => false end
+  | UDelRow k => match r with HRow i => i <? k | HElt _ _ => false end
+  | UCopyAssign _ => false
+  | _ => true
+  end.
+(** the indexed calls a step stands for *)
+Definition hresolve (M : mat T) (tb : htab) (o : hop) : res (list sop) :=
+  match o with
+  | HCall c => Ok [c]
+  | HHoldRow _ i => if mrows M <=? i then Exit else Ok []
+  | HHoldElt _ i j => if mrows M <=? i then Exit else if mcols M <=? j then OOB else Ok []
+  | HRowSet h j v => match hfind h tb with Some (HRow i) => Ok [USet i j v] | _ => OOB end
+  | HRowSwap h1 h2 =>
+      match hfind h1 tb, hfind h2 tb with
+      | Some (HRow i), Some (HRow j) => Ok [USwap i j]
+      | _, _ => OOB
+      end
+  | HRowAssign h l =>
+      match hfind h tb with
+      | Some (HRow i) =>
+          if length l =? mcols M then Ok (map (fun jv => USet i (fst jv) (snd jv)) (combine (seq 0 (length l)) l))
+          else OOB
+      | _ => OOB
+      end
+  | HEltSet h v => match hfind h tb with Some (HElt i j) => Ok [USet i j v] | _ => OOB end
+  end.
+(** the references held after the step *)
+Definition htable (M : mat T) (tb : htab) (o : hop) : htab :=
+  match o with
+  | HCall c => filter (fun hr => hkeep M c (snd hr)) tb
+  | HHoldRow h i => (h, HRow i) :: tb
+  | HHoldElt h i j => (h, HElt i j) :: tb
+  | HRowSwap _ _ | HRowAssign _ _ => filter (fun hr => is_hrow (snd hr)) tb
+  | _ => tb
+  end.
+Definition hstep (st : mat T * htab) (o : hop) : res ((mat T * htab) * sout) :=
+  let* ops := hresolve (fst st) (snd st) o in
+  let* r := srun ops (fst st) in
+  Ok ((fst r, htable (fst st) (snd st) o), last (snd r) ONone).
+Definition hrun (ops : list hop) (M : mat T) : res ((mat T * htab) * list sout) :=
+  fold_left (fun acc o => let* st := acc in let* st' := hstep (fst st) o in Ok (fst st', snd st ++ [snd st']))
+            ops (Ok ((M, []), [])).
+(** several objects, each with the references held into it *)
+Fixpoint hmset (k : nat) (Ss : list (mat T * htab)) (S' : mat T * htab) : list (mat T * htab) :=
+  match Ss, k with
+  | [], _ => []
+  | _ :: r, O => S' :: r
+  | S0 :: r, S k' => S0 :: hmset k' r S'
+  end.
+Definition hmstep (Ss : list (mat T * htab)) (ko : nat * hop) : res (list (mat T * htab) * sout) :=
+  match nth_error Ss (fst ko) with
+  | None => OOB
+  | Some S0 => let* st := hstep S0 (snd ko) in Ok (hmset (fst ko) Ss (fst st), snd st)
+  end.
+Definition hmrun (ops : list (nat * hop)) (Ms : list (mat T)) : res (list (mat T * htab) * list sout) :=
+  fold_left (fun acc o => let* st := acc in let* st' := hmstep (fst st) o in Ok (fst st', snd st ++ [snd st']))
+            ops (Ok (map (fun M => (M, [])) Ms, [])).
 End Model.
